@@ -3,11 +3,20 @@
 #include <src/observer/routing/SubjectRouter.cpp>
 #include <src/observer/routing/RoutingLevelView.cpp>
 #include <src/observer/routing/RoutingKey.cpp>
+// Specification payload: a class type passed BY VALUE; every special member stays visible as a call (declared, never
+// defined), so that copies and moves of the argument on its way down the tree are obligations of the proof.
+struct Payload {
+    int val; int state;
+    Payload(); Payload(const Payload&); Payload(Payload&&) noexcept;
+    Payload& operator=(const Payload&); Payload& operator=(Payload&&) noexcept;
+    ~Payload();
+};
 namespace tulz_verif_inst {
 inline void use(tulz::SubjectRouter &r, const tulz::RoutingKey &k) {
     (void) r.notify(k);
     (void) r.notify(k, 5);          // Args = int
     int v = 0; (void) r.notify(k, v);   // Args = int&
+    (void) r.notify(k, Payload());      // Args = Payload (by-value class type, passed as a temporary)
     auto s0 = r.subscribe<>(k, [] {});
     auto s1 = r.subscribe<int>(k, [](int) {});
 }
